@@ -1,6 +1,7 @@
 import PepitModel.Methods
 import PepitVerif.Math.AlgebraSem
 import PepitVerif.Math.WellFormed
+import PepitVerif.Math.StepsSem
 import PepitVerif.Props.C10
 
 /-!
@@ -291,7 +292,93 @@ theorem gfsc_example_no_run_beats_bound (f : E → ℝ) (g : E → E) (μ : ℝ)
   rw [hfd] at key
   linarith
 
+/-! ## gradient descent, potential function (potential_functions.gradient_descent_lyapunov_1) -/
+
+theorem nodup_singleE (k : EKey) (c : Coef) : (Dict.keys ([(k, c)] : EDict)).Nodup := by simp [Dict.keys]
+
+theorem denE_single (v : Nat → E) (φ : Nat → ℝ) (k : Nat) : EDict.den v φ [(EKey.f k, 1)] = φ k := by
+  simp [EDict.den, Dict.denM, keyVal]
+
+/-- the potential `V_k = k (f_k − f⋆) + L/2 ‖x − x⋆‖²` the script builds -/
+theorem gdlV_den (v : Nat → E) (φ : Nat → ℝ) (L : Coef) (k fk : Nat) (x : PDict) :
+    EDict.den v φ (gdlV L k fk x) =
+      (k : ℝ) * (φ fk - φ 0) + ((L : ℚ) : ℝ) / 2 * ‖PDict.den v x - v 0‖ ^ 2 := by
+  unfold gdlV PDict.sq
+  rw [EDict.den_add v φ _ _ (EDict.wf_smul _ _ (PDict.wf_ip _ _)), EDict.den_smul, EDict.den_smul,
+    EDict.den_sub v φ _ _ (nodup_singleE _ _), den_ip, PDict.den_sub v x _ (nodup_single 0 1),
+    real_inner_self_eq_norm_sq, denE_single, denE_single, denP_single]
+  push_cast; ring
+
+theorem wf_gdlV (L : Coef) (k fk : Nat) (x : PDict) : (Dict.keys (gdlV L k fk x)).Nodup := by
+  unfold gdlV
+  exact EDict.wf_add _ _ (EDict.wf_smul _ _ (EDict.wf_sub _ _ (nodup_singleE _ _)))
+
+theorem gdl_metric_den (v : Nat → E) (φ : Nat → ℝ) (L γ : Coef) (n : Nat) :
+    EDict.den v φ (gdlMetric L γ n) =
+      ((n + 1 : ℕ) : ℝ) * (φ 2 - φ 0) + ((L : ℚ) : ℝ) / 2 * ‖(v 1 - ((γ : ℚ) : ℝ) • v 2) - v 0‖ ^ 2
+        - ((n : ℝ) * (φ 1 - φ 0) + ((L : ℚ) : ℝ) / 2 * ‖v 1 - v 0‖ ^ 2) := by
+  unfold gdlMetric
+  rw [EDict.den_sub v φ _ _ (wf_gdlV L n 1 _), gdlV_den, gdlV_den]
+  unfold gdlNext
+  rw [den_stepPt, denP_single]
+
+/-- **the potential decreases along every real run, for the script's own metric**: `f` convex and `L`-smooth (first-order
+form) with gradient `g`, step `γ = 1/L`; under every interpretation consistent with `f` the metric `V_{n+1} − V_n` of the
+script is `≤ 0`, the value the example states — for every `n`, every `L > 0`, every point taken as `x⋆` -/
+theorem gdl1_example_no_run_beats_bound (f : E → ℝ) (g : E → E) (L γ : Coef) (hL : 0 < ((L : ℚ) : ℝ))
+    (hγ : ((γ : ℚ) : ℝ) * ((L : ℚ) : ℝ) = 1)
+    (hconv : ∀ x y, f y ≥ f x + ⟪g x, y - x⟫)
+    (hsm : ∀ x y, f y ≤ f x + ⟪g x, y - x⟫ + ((L : ℚ) : ℝ) / 2 * ‖y - x‖ ^ 2)
+    (v : Nat → E) (φ : Nat → ℝ) (n : Nat)
+    (hg : v 2 = g (v 1)) (h0 : φ 0 = f (v 0)) (h1 : φ 1 = f (v 1)) (h2 : φ 2 = f (v 1 - ((γ : ℚ) : ℝ) • v 2)) :
+    ∀ m ∈ (gdl1 L γ n).metrics, EDict.den v φ m ≤ 0 := by
+  intro m hm
+  have : m = gdlMetric L γ n := by simpa [gdl1] using hm
+  subst this
+  rw [gdl_metric_den, h0, h1, h2]
+  set Lr := ((L : ℚ) : ℝ) with hLr
+  set γr := ((γ : ℚ) : ℝ) with hγr
+  set x := v 1; set gx := v 2; set xs := v 0
+  have hγpos : 0 < γr := by
+    by_contra hneg
+    have : γr * Lr ≤ 0 := mul_nonpos_of_nonpos_of_nonneg (not_lt.mp hneg) hL.le
+    linarith
+  -- descent lemma and convexity at `x`
+  have hd := hsm x (x - γr • gx)
+  have hc := hconv x xs
+  rw [← hg] at hd hc
+  have e1 : (x - γr • gx) - x = -(γr • gx) := by abel
+  rw [e1, inner_neg_right, norm_neg, real_inner_smul_right, norm_smul, mul_pow, Real.norm_eq_abs, sq_abs,
+    real_inner_self_eq_norm_sq] at hd
+  -- the distance term
+  have e2 : (x - γr • gx) - xs = (x - xs) - γr • gx := by abel
+  have hdist : ‖(x - γr • gx) - xs‖ ^ 2 = ‖x - xs‖ ^ 2 - 2 * γr * ⟪gx, x - xs⟫ + γr ^ 2 * ‖gx‖ ^ 2 := by
+    rw [e2, @norm_sub_sq_real, real_inner_smul_right, norm_smul, mul_pow, Real.norm_eq_abs, sq_abs, real_inner_comm]
+    ring
+  have e3 : ⟪gx, xs - x⟫ = -⟪gx, x - xs⟫ := by rw [← neg_sub x xs, inner_neg_right]
+  rw [e3] at hc
+  rw [hdist]
+  have hn : (0 : ℝ) ≤ (n : ℝ) := Nat.cast_nonneg n
+  have hg2 : 0 ≤ ‖gx‖ ^ 2 := sq_nonneg _
+  have hγL : γr = 1 / Lr := by field_simp; linarith
+  push_cast
+  -- f(x⁺) ≤ f(x) − ‖g‖²/(2L);  f(x) − f⋆ ≤ ⟨g, x − x⋆⟩
+  have hd' : f (x - γr • gx) ≤ f x - γr / 2 * ‖gx‖ ^ 2 := by
+    have : Lr / 2 * (γr ^ 2 * ‖gx‖ ^ 2) = γr / 2 * ‖gx‖ ^ 2 := by
+      have : Lr * γr ^ 2 = γr := by rw [hγL]; field_simp
+      nlinarith
+    nlinarith
+  have hLγ2 : Lr / 2 * (γr ^ 2 * ‖gx‖ ^ 2) = γr / 2 * ‖gx‖ ^ 2 := by
+    have : Lr * γr ^ 2 = γr := by rw [hγL]; field_simp
+    nlinarith
+  have hLγ : Lr / 2 * (2 * γr * ⟪gx, x - xs⟫) = ⟪gx, x - xs⟫ := by
+    have : Lr * γr = 1 := by linarith
+    nlinarith
+  nlinarith [mul_nonneg hn (mul_nonneg hγpos.le hg2), hd', hc, hLγ, hLγ2]
+
 end Pepit.C09M
+
+#print axioms Pepit.C09M.gdl1_example_no_run_beats_bound
 
 #print axioms Pepit.C09M.gfsc_example_no_run_beats_bound
 
